@@ -16,6 +16,14 @@ Two kinds of case.
     cfg nodata = in-memory openpyxl workbook; file = the same workbook saved by openpyxl and compiled from the .xlsx
     (no stored results); xlsx = .xlsx with stored results (harness/xlsxwriter_min.py).
 
+(3) extent case: {'kind': 'extent', 'data': sheet holding a column of numbers, 'k': rows, 'blank': [col, row] beyond the
+    used area of that sheet, 'form': 'col'|'row', 'via': 'eval'|'countif', 'order': 'blank-first'|'unbounded-first'}: the
+    number of cells of `<data>!A:A` / `<data>!1:1` seen directly or as COUNTIF(r,"<>9")+COUNTIF(r,9) from the other
+    sheet, after the blank cell was read first / second.  Model: the clip.
+(4) raw case (oracle only — the Lean model has no CSE arrays): {'kind': 'raw', 'cells': {...}, 'arrays': {top: [ref, f]},
+    'order': [addresses evaluated first], 'read': [addresses read afterwards]}: workbooks with CSE array formulas whose
+    precedents are plain cells calling array-context-sensitive functions; every order must read the values a fresh
+    compiler gives each address on its own.
 (2) clip case: {'kind': 'clip', 'u': [c1, r1, c2, r2], 'mc': max_col, 'mr': max_row}: the rectangle an unbounded
     address covers on a sheet whose used area is (1,1,mc,mr), read off the shape of `evaluate`'s result.
 
@@ -53,7 +61,10 @@ RULE = ('deterministic core: ALL permutations of the first-evaluation order of f
         'through every access path (each cell, each enclosing range, whole-column / whole-row forms, list, tuple, '
         'generator, sheet-less spellings, repeated evaluate); all permutations x all positions of one set_value on a '
         '4-cell chain (in-memory and .xlsx with stored results); permutations of mixed first-evaluation paths; the clip '
-        'of every unbounded address on small used areas.  Random: DAG workbooks of 2-14 cells on one or two sheets with '
+        'of every unbounded address on small used areas; a blank cell beyond the used area read before / after the first '
+        'unbounded access on the active and on a non-active sheet, directly and through COUNTIF over Sheet!A:A / 1:1; CSE '
+        'array formulas over plain cells calling IFERROR/IFNA/IFS/IF/ROW/COLUMN/INDEX on ranges in all 24 first-evaluation '
+        'orders of {plain cell, array members, array range} (oracle only).  Random: DAG workbooks of 2-14 cells on one or two sheets with '
         'histories of 3-20 evaluations by random paths (8% set_value).  Configurations: in-memory, openpyxl-saved file, '
         '.xlsx with stored results.  A case is non-trivial when a formula or range node is reached by two different '
         'paths or in an order that is not the topological one.')
@@ -63,10 +74,12 @@ ASSUMPTIONS = [
     'area are read too (30% of the random workbooks)',
     'the row edge (used area reaching row 1048576) is not executed on the real code (a million cells); the column '
     'edge (XFD) is',
+    'CSE array workbooks are compared by the implementation-only order oracle (fresh compiler per address); the Lean '
+    'engine model has no CSE arrays, so there is no model output for that family',
     'nested lists of addresses are not generated (the code maps recursively; the model has flat lists)',
 ]
 TRUSTED = ['modelled, not verified: openpyxl (max_row/max_column, save/load), networkx, the concrete formula evaluator']
-REQUIRED_BUCKETS = ['perm:nodata', 'perm:file', 'perm:xlsx', 'permset:nodata', 'permset:xlsx', 'permpath:nodata',
+REQUIRED_BUCKETS = ['extent', 'cse', 'absent:nodata', 'perm:nodata', 'perm:file', 'perm:xlsx', 'permset:nodata', 'permset:xlsx', 'permpath:nodata',
                     'clip', 'rand:nodata', 'rand:file', 'rand:xlsx']
 EXHAUSTIVE = False
 EXPLANATION = ('theorems: generic engine + access paths, all workbooks / orders / rectangles; correspondence: real '
@@ -375,6 +388,10 @@ def split_many(s):
 def impl(case):
     if case.get('kind') == 'clip':
         return impl_clip(case)
+    if case.get('kind') == 'extent':
+        return impl_extent(case)
+    if case.get('kind') == 'raw':
+        return impl_raw(case)
     nodes = case['nodes']
     key = json.dumps(case, sort_keys=True)
     comp = _compiler(case)
@@ -455,6 +472,195 @@ def clip_shape(case):
     return f'g:{rows}:{cols}'
 
 
+
+# ---------------------------------------------------------------------------------------------------------------
+# extent family: a blank cell beyond the used area is read before / after the first unbounded access of its sheet
+
+def _shape(v):
+    if isinstance(v, tuple) and v and isinstance(v[0], tuple):
+        return f'g:{len(v)}:{len(v[0])}'
+    if isinstance(v, tuple):
+        return f'v:{len(v)}'
+    return 'sc'
+
+
+def extent_geometry(case):
+    """-> (unbounded tuple, max_col, max_row) of the data sheet"""
+    k = case['k']
+    u = (1, 0, 1, 0) if case['form'] == 'col' else (0, 1, 0, 1)
+    return u, 2, k
+
+
+def impl_extent(case):
+    import openpyxl
+    from pycel import ExcelCompiler
+    data, k = case['data'], case['k']
+    other = 'Data 2' if data == 'Sheet1' else 'Sheet1'
+    wb = openpyxl.Workbook()
+    first = wb.active
+    first.title = 'Sheet1'                       # the active sheet
+    second = wb.create_sheet('Data 2')
+    ws = {'Sheet1': first, 'Data 2': second}
+    for r in range(1, k + 1):
+        ws[data][f'A{r}'] = 9 if r == 2 else r
+    ws[data][f'B{k}'] = 9                        # used area (1,1,2,k)
+    rng = f'{sheet_q(data)}!' + ('A:A' if case['form'] == 'col' else '1:1')
+    ws[other]['A1'] = f'=COUNTIF({rng},"<>9")'
+    ws[other]['A2'] = f'=COUNTIF({rng},9)'
+    comp = ExcelCompiler(excel=wb)
+    blank = cell_addr(data, *case['blank'])
+
+    def target():
+        if case['via'] == 'eval':
+            return _shape(comp.evaluate(rng))
+        a = comp.evaluate(cell_addr(other, 1, 1))
+        b = comp.evaluate(cell_addr(other, 1, 2))
+        n = a + b
+        return 'sc' if n == 1 else f'v:{n}'
+    if case['order'] == 'blank-first':
+        comp.evaluate(blank)
+        seen = [target()]
+    else:
+        seen = [target()]
+        comp.evaluate(blank)
+        seen += [target(), _shape(comp.evaluate(rng))]
+    return seen[0] if len(set(seen)) == 1 else '->'.join(seen)
+
+
+def extent_cases(tier):
+    for data in ('Sheet1', 'Data 2'):
+        for form in ('col', 'row'):
+            for via in ('eval', 'countif'):
+                for order in ('blank-first', 'unbounded-first'):
+                    for blank in ([1, 6], [4, 1], [3, 5]):
+                        yield {'kind': 'extent', 'data': data, 'k': 3, 'blank': blank, 'form': form, 'via': via,
+                               'order': order}
+
+
+# ---------------------------------------------------------------------------------------------------------------
+# raw family (oracle only): CSE array formulas over plain cells that call array-context-sensitive functions
+
+_RAW_FRESH = {}
+
+
+def _raw_compiler(case):
+    import openpyxl
+    from openpyxl.worksheet.formula import ArrayFormula
+    from pycel import ExcelCompiler
+    wb = openpyxl.Workbook()
+    sheets = {}
+    items = [(a, v, None) for a, v in case['cells'].items()] + [(a, f, ref) for a, (ref, f) in case['arrays'].items()]
+    for addr, v, ref in sorted(items, key=lambda t: SHEETS.index(split_addr(t[0])[0])):
+        s, c, r, _, _ = split_addr(addr)
+        if s not in sheets:
+            if not sheets:
+                sheets[s] = wb.active
+                sheets[s].title = s
+            else:
+                sheets[s] = wb.create_sheet(s)
+        sheets[s][f'{colname(c)}{r}'] = ArrayFormula(ref, v) if ref else v
+    if case.get('file'):
+        path = os.path.join(TMP, f'raw{os.getpid()}-{abs(hash(json.dumps([case["cells"], case["arrays"]]))) % 10**9}.xlsx')
+        if not os.path.exists(path):
+            wb.save(path)
+        return ExcelCompiler(filename=path)
+    return ExcelCompiler(excel=wb)
+
+
+def _raw_eval(comp, addr):
+    try:
+        return enc_out(comp.evaluate(addr))
+    except RecursionError as exc:
+        return core.canon_exc(exc)
+    except Exception as exc:   # noqa
+        return core.canon_exc(exc)
+
+
+def raw_fresh(case, addr):
+    k = (json.dumps(case['cells'], sort_keys=True), json.dumps(case['arrays'], sort_keys=True), bool(case.get('file')),
+         addr)
+    if k not in _RAW_FRESH:
+        _RAW_FRESH[k] = _raw_eval(_raw_compiler(case), addr)
+    return _RAW_FRESH[k]
+
+
+def impl_raw(case):
+    comp = _raw_compiler(case)
+    for a in case['order']:
+        _raw_eval(comp, a)
+    outs = [_raw_eval(comp, a) for a in case['read']]
+    fails = []
+    for a, o in zip(case['read'], outs):
+        f = raw_fresh(case, a)
+        if o != f:
+            fails.append((0, f'after first evaluating {case["order"]}, evaluate({a}) = {core.show(o)} but a fresh '
+                             f'compiler that evaluates {a} first gives {core.show(f)}'))
+            break
+    _ORACLE[json.dumps(case, sort_keys=True)] = fails
+    return ';'.join(outs)
+
+
+PLAIN_FORMS = ['IFERROR(B1:B3,99)', 'IFNA(B1:B3,5)', 'IFS(B1:B3>5,1,TRUE,0)', 'IF(B1:B3>5,1,0)', 'ROW(B1:B3)',
+               'COLUMN(B1:C1)', 'B1:B3', 'SUM(B1:B3)', 'INDEX(B1:B3,2)', 'IFERROR(1/B1:B3,0)']
+ARRAY_FORMS = ['=C1+D1:D2', '=IF(D1:D2>1,C1,0)', '=C1:C1*D1:D2']
+
+
+def cse_cases(tier):
+    thorough = tier == 'thorough'
+    for pi, plain in enumerate(PLAIN_FORMS):
+        for ai, arr in enumerate(ARRAY_FORMS):
+            cells = {'Sheet1!B1': 7, 'Sheet1!B2': 0, 'Sheet1!B3': 6, 'Sheet1!C1': '=' + plain, 'Sheet1!D1': 1,
+                     'Sheet1!D2': 2, 'Sheet1!F1': '=C1+1'}
+            arrays = {'Sheet1!E1': ['E1:E2', arr]}
+            targets = ['Sheet1!C1', 'Sheet1!E1', 'Sheet1!E2', 'Sheet1!E1:E2']
+            read = ['Sheet1!C1', 'Sheet1!E1', 'Sheet1!E2', 'Sheet1!F1', 'Sheet1!E1:E2']
+            perms = list(itertools.permutations(targets))
+            if not thorough and ai:
+                perms = [p for p in perms if p[0] != 'Sheet1!C1'][(pi + ai) % 3::3]
+            for p in perms:
+                for file in ((False, True) if thorough and ai == 0 else (False,)):
+                    c = {'kind': 'raw', 'tag': 'cse', 'cells': cells, 'arrays': arrays, 'order': list(p), 'read': read}
+                    if file:
+                        c['file'] = 1
+                    yield c
+    # a second array over a member of the first, a plain cell between them, and a cross-sheet operand
+    cells = {'Sheet1!B1': 7, 'Sheet1!B2': 0, 'Sheet1!B3': 6, 'Sheet1!C1': '=IFERROR(B1:B3,99)', 'Sheet1!C2': '=C1+1',
+             'Sheet1!D1': 1, 'Sheet1!D2': 2, "'Data 2'!A1": '=IFNA(Sheet1!B1:B3,5)'}
+    arrays = {'Sheet1!E1': ['E1:E2', "=C2+D1:D2+'Data 2'!A1"], 'Sheet1!G1': ['G1:G2', '=E1:E2*2']}
+    targets = ['Sheet1!C1', 'Sheet1!C2', "'Data 2'!A1", 'Sheet1!E2', 'Sheet1!G1:G2']
+    read = ['Sheet1!C1', 'Sheet1!C2', "'Data 2'!A1", 'Sheet1!E1', 'Sheet1!E2', 'Sheet1!G1', 'Sheet1!G2',
+            'Sheet1!G1:G2']
+    for p in itertools.permutations(targets):
+        yield {'kind': 'raw', 'tag': 'cse', 'cells': cells, 'arrays': arrays, 'order': list(p), 'read': read}
+
+
+# ---------------------------------------------------------------------------------------------------------------
+# engine family `absent`: a blank cell beyond the used area of the active / a non-active sheet, both orders
+
+def absent_cases(tier):
+    base = [['I', 'Sheet1!A1', _n(1)], ['I', "'Data 2'!A1", _n(5)], ['I', "'Data 2'!A2", _n(6)],
+            ['R', "'Data 2'!A1:A2", 2, 1, [1, 2]], ['F', 'Sheet1!B1', 'sum', [3]], ['I', 'Sheet1!A2', _n(2)],
+            ['I', 'Sheet1!B2', _n('x')], ['R', 'Sheet1!A1:A2', 2, 1, [0, 5]], ['R', 'Sheet1!A1:B1', 1, 2, [0, 4]],
+            ['F', "'Data 2'!B1", 'cnt', [7]], ['I', "'Data 2'!B2", _n(3)],
+            ['R', "'Data 2'!A1:B1", 1, 2, [1, 9]], ['R', "'Data 2'!A1:B2", 2, 2, [1, 9, 2, 10]],
+            ['R', "'Data 2'!B1:B2", 2, 1, [9, 10]], ['R', 'Sheet1!B1:B2', 2, 1, [4, 6]],
+            ['R', 'Sheet1!A2:B2', 1, 2, [5, 6]], ['R', 'Sheet1!A1:B2', 2, 2, [0, 4, 5, 6]]]
+    spell = {'3': 'A:A', '7': 'A:A'}
+    for sheet in ('Sheet1', 'Data 2'):
+        for (c, r) in ((1, 5), (4, 1), (3, 4)):
+            nodes = [list(n) for n in base] + [['I', cell_addr(sheet, c, r), 'z']]
+            ab = len(nodes) - 1
+            ub = [['E', ['u', sheet, 1, 0, 1, 0, 0]], ['E', ['u', sheet, 0, 1, 0, 1, 0]],
+                  ['E', ['u', sheet, 1, 0, 2, 0, 0]], ['E', ['u', sheet, 0, 1, 0, 2, 0]]]
+            fm = [['E', ['c', 4, 0]], ['E', ['c', 9, 0]]]
+            for cfg in (('nodata', 'file', 'xlsx') if tier == 'thorough' else ('nodata', 'file')):
+                for first in (ub, fm):
+                    yield {'cfg': cfg, 'nodes': nodes, 'spell': spell, 'absent': [ab], 'tag': 'absent',
+                           'ops': [['E', ['c', ab, 0]]] + first + ub + fm}
+                    yield {'cfg': cfg, 'nodes': nodes, 'spell': spell, 'absent': [ab], 'tag': 'absent',
+                           'ops': first + [['E', ['c', ab, 0]]] + ub + fm}
+
+
 # ---------------------------------------------------------------------------------------------------------------
 # model side
 
@@ -478,6 +684,11 @@ def model_lines(case):
     if case.get('kind') == 'clip':
         c1, r1, c2, r2 = case['u']
         return [f'c05 clip {c1} {r1} {c2} {r2} {case["mc"]} {case["mr"]}']
+    if case.get('kind') == 'extent':
+        (c1, r1, c2, r2), mc, mr = extent_geometry(case)
+        return [f'c05 clip {c1} {r1} {c2} {r2} {mc} {mr}']
+    if case.get('kind') == 'raw':
+        return []                # oracle-only family: the Lean model has no CSE arrays
     nodes = case['nodes']
     cfg = {'nodata': 'nodata', 'file': 'nodata', 'xlsx': 'stored'}[case['cfg']]
     toks = ['c05', cfg, str(len(nodes))]
@@ -528,6 +739,8 @@ def _item_same(x, y):
 
 
 def same(impl_out, model_out):
+    if model_out == '' and impl_out is not None:
+        return True              # raw family (no model line): decided by the order oracle alone
     if impl_out == model_out:
         return True
     if model_out is None or impl_out is None:
@@ -542,6 +755,7 @@ def governed(case):
 
 def oracles(results):
     groups = {}
+    raw_groups = {}
     for r in results:
         if r.case.get('kind') == 'clip':
             want = clip_shape(r.case)
@@ -549,12 +763,30 @@ def oracles(results):
                 yield r.case, (f'unbounded {unbounded_coord(*r.case["u"])} on used area (1,1,{r.case["mc"]},'
                                f'{r.case["mr"]}) has shape {r.impl}, its cells inside the used area are {want}')
             continue
+        if r.case.get('kind') == 'extent':
+            want = clip_shape({'u': extent_geometry(r.case)[0], 'mc': 2, 'mr': r.case['k']})
+            if r.impl != want:
+                yield r.case, (f'{r.case["data"]}!{"A:A" if r.case["form"] == "col" else "1:1"} ({r.case["via"]}, '
+                               f'{r.case["order"]}, blank cell {r.case["blank"]}) shows {r.impl}, its cells inside the '
+                               f'used area (1,1,2,{r.case["k"]}) are {want}')
+            continue
         key = json.dumps(r.case, sort_keys=True)
         for k, msg in _ORACLE.get(key, [])[:1]:
             yield r.case, f'op #{k}: {msg}'
+        if r.case.get('kind') == 'raw':
+            g = ('raw', json.dumps(r.case['cells'], sort_keys=True), json.dumps(r.case['arrays'], sort_keys=True),
+                 bool(r.case.get('file')))
+            raw_groups.setdefault(g, []).append(r)
+            continue
         if r.case.get('perm'):
             g = (r.case['cfg'], json.dumps(r.case['nodes']), r.case['tag'], json.dumps(r.case['ops'][r.case['perm']:]))
             groups.setdefault(g, []).append(r)
+    for g, rs in raw_groups.items():
+        for r in rs[1:]:
+            if r.impl != rs[0].impl:
+                yield r.case, (f'read-out {core.show(r.impl)[:120]} after first evaluating {r.case["order"]} differs from '
+                               f'{core.show(rs[0].impl)[:120]} after {rs[0].case["order"]}')
+                break
     for g, rs in groups.items():
         k = rs[0].case['perm']
         ref = rs[0].impl.split(';')[k:]
@@ -590,7 +822,7 @@ def finding_key(case, impl_out, model_out):
 # coverage
 
 def nontrivial(case):
-    if case.get('kind') == 'clip':
+    if case.get('kind') in ('clip', 'extent', 'raw'):
         return True
     seen_nodes = set()
     kinds = set()
@@ -605,6 +837,10 @@ def nontrivial(case):
 def bucket(case):
     if case.get('kind') == 'clip':
         return 'clip'
+    if case.get('kind') == 'extent':
+        return 'extent'
+    if case.get('kind') == 'raw':
+        return case.get('tag', 'raw')
     return f'{case.get("tag", "corpus")}:{case["cfg"]}'
 
 
@@ -923,8 +1159,9 @@ def rand_cases(tier, rng):
         absent = None
         if rng.random() < 0.3:
             # a blank cell beyond the used area, not written into the workbook (reading it must not move the used area)
-            mc, mr = grids['Sheet1']
-            nodes.append(['I', cell_addr('Sheet1', mc + rng.randint(0, 2), mr + rng.randint(1, 3)), 'z'])
+            sh = rng.choice(sorted(grids))
+            mc, mr = grids[sh]
+            nodes.append(['I', cell_addr(sh, mc + rng.randint(0, 2), mr + rng.randint(1, 3)), 'z'])
             absent = len(nodes) - 1
         cells = [i for i, n in enumerate(nodes) if n[0] != 'R']
         ranges = [i for i, n in enumerate(nodes) if n[0] == 'R']
@@ -963,5 +1200,8 @@ def rand_cases(tier, rng):
 
 def cases(tier, rng):
     yield from clip_cases(tier)
+    yield from extent_cases(tier)
+    yield from cse_cases(tier)
+    yield from absent_cases(tier)
     yield from perm_cases(tier, rng)
     yield from rand_cases(tier, rng)
